@@ -7,6 +7,7 @@ from typing import Dict, List, Optional, Set
 
 from ..core import astq
 from ..core.cfg import CFG
+from ..core.inline import clone
 from ..core.program import AnalysisError, Program, ancestors, enclosing_stmt, norm, short, walk_function
 from ..report import Result
 from ..runner import Variant
@@ -53,11 +54,20 @@ def check_align(prog: Program, res: Result) -> None:
     # per-frame lists: appended to in the batch loop
     lists = {c.func.value.id for c in astq.method_calls(inner, "append") if isinstance(c.func.value, ast.Name)}
     feeds: Dict[str, str] = {}
+    proj: Dict[str, ast.AST] = {}      # key -> per-frame value, when the key maps a comprehension over a list of whole frames
 
     def _feed(key, v, at):
-        nm = astq.names_in(astq.expand_at(fn, v, at, keep=lists)) & lists
+        e = astq.expand_at(fn, v, at, keep=lists)
+        nm = astq.names_in(e) & lists
         if len(nm) == 1:
             feeds.setdefault(key, next(iter(nm)))
+            # [g(f) for f in frames] over a list that collects the queue item itself: the per-frame value is g(item)
+            comps = [c for c in ast.walk(e) if isinstance(c, (ast.ListComp, ast.GeneratorExp)) and len(c.generators) == 1 and not c.generators[0].ifs
+                     and isinstance(c.generators[0].iter, ast.Name) and c.generators[0].iter.id in nm and isinstance(c.generators[0].target, ast.Name)]
+            if len(comps) == 1 and key not in proj:
+                from ..core.program import _Subst
+
+                proj[key] = _Subst({comps[0].generators[0].target.id: ast.Name(item, ast.Load())}).visit(clone(comps[0].elt))
 
     for k, v in zip(dicts[0].value.keys, dicts[0].value.values):
         if isinstance(k, ast.Constant):
@@ -74,7 +84,7 @@ def check_align(prog: Program, res: Result) -> None:
     false_succ = [m for t in tnodes for m in cfg.g.successors(t) if "false" in cfg.g[t][m]["labels"]]
     for key, lst in sorted(feeds.items()):
         apps = [c for c in astq.method_calls(inner, "append") if isinstance(c.func.value, ast.Name) and c.func.value.id == lst]
-        flagged = key == "instances"
+        flagged = key == "instances" and [k_ for k_, l_ in feeds.items() if l_ == lst] == ["instances"]
         res.ob(R, len(apps) == 1, fi.qualname, f"{lst}: one append site in the batch loop", f"list `{lst}` (batch key '{key}') has {len(apps)} append sites in the batch loop",
                fi.where)
         if len(apps) != 1:
@@ -98,6 +108,10 @@ def check_align(prog: Program, res: Result) -> None:
         res.ob(R, w is None, fi.qualname, f"{lst} appended after the end-of-stream test", f"`{lst}` is appended before the end-of-stream test", f"{fi.module.relpath}:{a.lineno}")
         # value comes from the frame under the same key
         arg = a.args[0] if a.args else None
+        if key in proj:
+            res.ob(R, isinstance(arg, ast.Name) and arg.id == item, fi.qualname, f"{lst} collects the frame read from the queue", f"`{lst}` collects `{short(arg, 40) if arg is not None else '?'}`, "
+                   f"not the frame just read", f"{fi.module.relpath}:{a.lineno}")
+            arg = proj[key]
         if key in KEY_OF:
             subs = [n for n in ast.walk(arg) if isinstance(n, ast.Subscript) and norm(n.value) == item and isinstance(n.slice, ast.Constant)] if arg is not None else []
             ok = len(subs) == 1 and subs[0].slice.value == KEY_OF[key]
